@@ -72,8 +72,9 @@ class StandardQTomographyBasedWeightedProbabilityBasedSquaredError(
         )
 
     def _calc_extend_weight_matrix(self) -> None:
-        # if weight_matrices is None, not calculate.
+        # if weight_matrices is None, there is no extend weight matrix.
         if self.weight_matrices is None:
+            self._extend_weight_matrix = None
             return
 
         # calc the extend weight matrix.
@@ -88,6 +89,11 @@ class StandardQTomographyBasedWeightedProbabilityBasedSquaredError(
             block_matrix.append(row)
 
         self._extend_weight_matrix = np.block(block_matrix)
+
+    def set_weight_matrices(self, weight_matrices: List[np.ndarray]) -> None:
+        # the extend weight matrix is derived from the weight matrices: keep it in step
+        super().set_weight_matrices(weight_matrices)
+        self._calc_extend_weight_matrix()
 
     def set_prob_dists_q(self, prob_dists_q: List[np.ndarray]) -> None:
         """sets vectors of ``q``, by default None.
